@@ -105,7 +105,11 @@ structure Cfg where
   rollbackDeletesCreatedDID : Bool
   /-- `Rollback` loads ALL changes of every transaction it found an old change for -/
   sweepWholeTx : Bool
-  deriving Repr
+  /-- `IsCommitted` compares SHA-256 of the rendered JSON. For a version whose content equals the published one (a no-op
+      update) the rendering can still differ: `Latest` preloads keys and services without ORDER BY. Whether the rendering
+      of version `row` of DID `did` is the published one is data supplied by the harness (default: yes); every theorem
+      holds for all values. -/
+  rawSame : Nat → Nat → Bool := fun _ _ => true
 
 structure World where
   dids : List DidRow := []
@@ -154,9 +158,13 @@ def rowOp (o : Op) (fresh : Nat) (cur : Option Content) : Option Content :=
   | .addKey _, some c => some { c with vms := c.vms ++ [fresh] }
   | _, _ => none
 
+/-- `Latest` preloads the services through the join table, whose key is (version, service id): a service that the
+    rendered document (`Raw`) lists twice comes back once -/
+def loadContent (c : Content) : Content := { c with svcs := c.svcs.eraseDups }
+
 /-- the new content for one DID row, if the operation changes it -/
 def newContent (o : Op) (base : Nat) (r : DidRow) : Option Content :=
-  if r.subject = o.subject then rowOp o (base + r.id) (r.vers.head?.map (·.c)) else none
+  if r.subject = o.subject then rowOp o (base + r.id) (r.vers.head?.map (fun v => loadContent v.c)) else none
 
 /-- `CreateOrUpdate` + the change-log row saved in the same transaction -/
 def pushRow (o : Op) (base now : Nat) (r : DidRow) : DidRow :=
@@ -318,7 +326,7 @@ def isCommitted (cfg : Cfg) (pub : Nat → List Content) (ch : Change) : Res Boo
   | .nuts =>
     match pubLatest pub ch.did with
     | none => if cfg.notFoundIsUncommitted then .ok false else .err "notfound"
-    | some cur => .ok (cur == ch.c)
+    | some cur => .ok (cur == ch.c && cfg.rawSame ch.did ch.row)
 
 /-- the `committed` loop of `Rollback` over one transaction's changes (stops at the first uncommitted one) -/
 def committedLoop (cfg : Cfg) (pub : Nat → List Content) : List Change → Res Bool
